@@ -9,5 +9,8 @@ CHECK = {
              # Split draws from crypto/rand, so a failing case need not fail again when rapid re-runs it;
              # every oracle is a deterministic fact about the shares actually returned, so it still counts.
              flaky_is_violation=True),
+        unit("unseal-threshold", "vault", ["vault/c20_test.go", "vault/c10_test.go"], "^TestVerif_C20_",
+             quick={"checks": 150, "shards": 1, "cap": 900},
+             thorough={"checks": 1000, "shards": 16, "cap": 3000}),
     ],
 }
